@@ -1,10 +1,23 @@
 #!/bin/sh
-# Build the framework from files on disk only (offline): Lean theorems + driver, Rust harness.
-set -e
+# Build the framework from files on disk only (offline): Lean theorems + per-property drivers,
+# Rust harness binaries.  Individual failures are reported by the per-property checks.
 cd "$(dirname "$0")"
 export CARGO_NET_OFFLINE=true
 mkdir -p out evidence replays
-(cd lean && lake build FontVerif fvdriver)
+for t in translate/*.py; do
+  [ -f "$t" ] && python3 "$t" --repo /repo --out lean/FontVerif/Gen --report "out/setup.$(basename $t).json" >/dev/null 2>&1
+done
+(cd lean && lake build FontVerif || true)
+for p in props/C*.json; do
+  id=$(basename "$p" .json); low=$(echo "$id" | tr 'A-Z' 'a-z')
+  mods=$(python3 -c "import json,sys; print(' '.join(json.load(open('$p'))['props']))")
+  (cd lean && lake build $mods drv_$low) || echo "setup: lean build for $id failed"
+done
 cp /repo/Cargo.lock harness/Cargo.lock 2>/dev/null || true
-(cd harness && cargo build --release --quiet)
+(cd harness && cargo build --release --quiet --bins) || \
+  for p in props/C*.json; do
+    low=$(basename "$p" .json | tr 'A-Z' 'a-z')
+    (cd harness && cargo build --release --quiet --bin $low) || echo "setup: harness build for $low failed"
+  done
 echo "setup done"
+exit 0
